@@ -558,6 +558,7 @@ class Loop:
 class Contract:
     def __init__(self, key, ns):
         self.key = key
+        self.ns = ns
         self.params = ns.get("params", {})
         self.result = ns.get("result", None)
         self.requires = ns.get("requires")
